@@ -176,6 +176,10 @@ const (
 	PanicError
 	PanicNilDeref
 	FailMidStream // error item in the middle of the streamed output (stream-producing forms), plain error otherwise
+	// PanicConverter: the streamed output is a converted reader whose converter panics on its 2nd
+	// chunk (exercises the framework's stream-forwarding goroutines when that stream is merged);
+	// forms that return a value fail with a plain error
+	PanicConverter
 )
 
 // ErrSentinel / CustomErr are what failing nodes return.
